@@ -67,4 +67,16 @@ example : compatExp 0 1 4 4 ∧ compatExp 0 0 5 5 := by simp [compatExp]
 /-- regression witness for repaired defect F27 (delay subtracted instead of added) -/
 example : count [256, 256, 2048] [0, 0, 1] 6 none = 6 ∧ sizeAt 2048 5 1 = 128 := by decide
 
+/-- "axes with coarser voxels start downscaling later so voxels tend towards isotropy": the delay the code
+    computes for an axis whose voxel size is `q = n/d ≥ 1` times the finest one (`int(round(log2 q))`, model
+    `Scales.delay`, decided in integer arithmetic) is exactly the number of halvings of the finest axis after
+    which the two voxel sizes are within a factor `√2` of each other: `q / 2^k ∈ [1/√2, √2)`, for EVERY
+    rational ratio. From level `k` on both axes are halved together, so the ratio stays there. -/
+theorem delay_is_the_level_of_near_isotropy (n d : Nat) (hd : 0 < d) :
+    n * n < 2 ^ (2 * delay n d + 1) * (d * d) ∧
+    (delay n d = 0 ∨ 2 ^ (2 * delay n d - 1) * (d * d) ≤ n * n) :=
+  delay_spec n d hd
+
+example : delays [(1, 1), (3, 2), (40, 1)] = [0, 1, 5] := by decide
+
 end NgVerif.Props.C08
